@@ -636,7 +636,10 @@ func (s *DBRPNode) Format(buf *bytes.Buffer, indent string, onNewLine bool) {
 	buf.WriteString(indent)
 	buf.WriteString(TokenDBRP.String())
 	buf.WriteByte(' ')
-	buf.WriteString(s.DBRP())
+	// Format the references themselves so that double quotes are escaped.
+	s.DB.Format(buf, "", false)
+	buf.WriteByte('.')
+	s.RP.Format(buf, "", false)
 }
 
 func (n *DBRPNode) String() string {
